@@ -286,6 +286,7 @@ def index_meta(model, dec, fid, write_op, prop='C13', extra_fp=None):
             else:
                 mono = 'none'
             fp['mono'] = mono
+            fp['unsigned_negative_step'] = code in (15, 16, 17) and any(d < 0 for d in diffs)
             if cls == 'band':
                 stats['band_skipped'] += 1
                 continue
